@@ -247,6 +247,15 @@ func Family(full bool) []FamDoc {
 					delete(d.objs, d.Info)
 					d.Info = 0
 				}
+				if extra == "shared-indirect-attrs" {
+					// ... and the page tree root passes down resources of another category only
+					for _, nr := range sortedKeys(d.objs) {
+						o := d.objs[nr]
+						if strings.Contains(o.body, "/Type/Pages/Kids") && !strings.Contains(o.body, "/Parent") {
+							o.body = strings.TrimSuffix(o.body, ">>") + "/Resources<</ExtGState<</GX<</LW 1>>>>>>>>"
+						}
+					}
+				}
 				add(fmt.Sprintf("numbering=%s,extra=%s", numbering, extra), d, mk, rot, media, container)
 			}
 		}
